@@ -23,7 +23,17 @@ RULE = ("one case = (base?, route table, path). Route tables: 27 fixed tables (u
         "compared model-vs-code only. Opcode-2 cases drive the REAL path builder (StaticPath::into_paths, "
         "static_routes.rs) on every generated flat route, as registered ([Static(base)] + segments) and on each "
         "of its expand_optionals() variants, with PRNG-drawn value lists per parameter name; every built path is "
-        "fed back to match_route. A case is non-trivial when some route matched; distinct = distinct case hash.")
+        "fed back to match_route; the prerendered params are None, inserted (a repeated name replaces) or collected with "
+        "FromIterator (first entry wins), and the builder is called directly or through RouteListing::into_static_paths. "
+        "Every op-0/op-2 case carries PRNG-drawn representation flags: sibling lists as tuples (1-16) or StaticVec, segments "
+        "plain / Box<dyn PossibleRouteMatch> / Arc<dyn ..>, StaticSegment<&str> or StaticSegment<user AsPath type>, base as "
+        "String or &'static str; bases include \"\" (what <Routes>/<FlatRoutes> always pass) and a relative one; routes may "
+        "end in .child(()). Opcode 3 calls PossibleRouteMatch::test directly on a segment value (partition, is_complete). "
+        "Opcode 4 renders a real <Router base?><Routes|FlatRoutes> app holding the case's route tree through "
+        "RouteList::generate, leptos_axum::generate_route_list_with_exclusions and leptos_actix::.. and compares the "
+        "registered table (segments and path patterns) with the table the oracle's reference assumes. Opcode 5 checks 40 "
+        "literals compiled through the path! macro against an independent parse. "
+        "A case is non-trivial when some route matched; distinct = distinct case hash.")
 TRUSTED = [
     "Coq 8.16.1 kernel (coqc); no axioms: every theorem of Properties_C14.v is 'Closed under the global context'",
     "extraction to OCaml with ExtrOcamlBasic only, ocamlfind ocamlopt, extract/driver.ml sexp I/O",
@@ -37,15 +47,21 @@ TRUSTED = [
     "modelled, not verified: str::chars / split_at / trim_end_matches / strip_prefix / trim_start_matches semantics on "
     "UTF-8 byte strings (transcribed in Router/Match.v, compared with the real functions on every case)",
     "the reference semantics of a flat route (Router/Flat.v and, independently, gen/c14.py): the path pattern "
-    "to_axum_path/to_actix_path build from it, matched literally, one trailing '/' of the request path tolerated",
+    "to_axum_path/to_actix_path build from it, matched literally, one trailing '/' of the request path tolerated; "
+    "that the integrations really register this pattern for every table is compared on every op-4 case (real "
+    "generate_route_list of leptos_axum and leptos_actix), not proved; how axum/matchit and actix-router interpret a "
+    "pattern stays trusted",
+    "compared, not proved: routes ending in .child(()) (oracle only: the Coq route type has no unit child), the path! "
+    "macro (op 5, fixed literals against an independent parse), sibling tuples of 13-16 routes (harness-side forwarding "
+    "wrappers supply the Clone that std tuples lack above 12)",
 ]
 ASSUMPTIONS = [
     "request paths start with '/' (other strings are compared model-vs-code only)",
     "parameter and wildcard names are non-empty and do not start with '/'; a WildcardSegment is the last segment of "
     "its route (documented requirement of leptos_router)",
     "segment texts, names and paths are valid UTF-8",
-    "segment tuples and sibling tuples have arity <= 12 in the correspondence run (Debug/Clone for tuples stop at 12; "
-    "the tuple macros are uniform in the arity; the model is arity-independent)",
+    "segment tuples have arity <= 12 (their impl requires Self: Debug, which std provides up to 12: larger ones cannot "
+    "be instantiated); sibling tuples 1..16 (all the impls there are)",
 ]
 LEVEL_TEXT = ("Coq proofs about an executable Gallina transcription of leptos_router's matcher (StaticSegment/Param/"
               "OptionalParam/Wildcard tests, the tuple macro with its include_optionals back-off, NestedRoute::"
@@ -59,14 +75,21 @@ LEVEL_NOTE = ("Trusted: Coq kernel, ExtrOcamlBasic extraction + OCaml driver, th
               "k_optional is the placement of OptionalParamSegments the matcher does not handle like the table (optional "
               "followed by another segment of its tuple, inside a nested tuple, or in a route with children; each "
               "inhabited by a proved witness); optionals as a top-level suffix of a leaf route's tuple are inside the "
-              "theorems. All theorems are stated with and without base path and for tables with any number of routes. "
+              "theorems. All theorems are stated with and without base path (the empty base that <Routes>/<FlatRoutes> "
+              "always pass is inside them) and for tables with any number of routes. "
               "No axioms.")
 TECHNIQUE = "Coq proof (structural induction over nested segment tuples and route trees) + differential correspondence of the extracted model with the Rust code"
 
 # ---------------------------------------------------------------- case construction
 # seg   : [0,s] static  [1,n] param  [2,n] optional  [3,n] wildcard  [4] unit  [5,[seg..]] tuple
 # route : [seg,0] | [seg,1,[route..]] (children = a tuple) | [seg,2,[route..]] (children = StaticVec)
-# case  : [0, base?, [route..], path] (+ [1]: the top-level siblings are a StaticVec)
+#         | [seg,3] (.child(()): the unit child)
+# case  : [0, base?, [route..], path] (+ [flags]: bit 1 = the top-level siblings are a StaticVec,
+#         2 / 4 = segments as Box<dyn> / Arc<dyn>, 8 = StaticSegment<user AsPath type>, 16 = &'static str base,
+#         op 2 only: 32 = into_paths(None), 64 = params collected (FromIterator), 128 = through RouteListing)
+#         [3, seg, path, flags]  PossibleRouteMatch::test on a segment value
+#         [4, base?, [route..], flags, [excluded path..]]  the registered route table (flag 256 = <FlatRoutes>)
+#         [5, i]  the i-th literal compiled through path!
 
 
 def S(s):
@@ -100,6 +123,23 @@ def mk(routes, path, base=None, vec=False):
     return C.norm([0, [] if base is None else [base], routes, path] + ([1] if vec else []))
 
 
+def flags_of(c):
+    if c[0] in (0, 2):
+        return c[4] if len(c) > 4 else 0
+    if c[0] == 3:
+        return c[3] if len(c) > 3 else 0
+    if c[0] == 4:
+        return c[3]
+    return 0
+
+
+def flags_str(f):
+    names = [(1, "vec"), (2, "Box<dyn>"), (4, "Arc<dyn>"), (8, "AsPath-type"), (16, "&str-base"), (32, "params=None"),
+             (64, "params-collected"), (128, "via-RouteListing"), (256, "FlatRoutes")]
+    on = [n for b, n in names if f & b]
+    return ("[" + ",".join(on) + "] ") if on else ""
+
+
 def txt(v):
     return C.show_bytes(v)
 
@@ -121,6 +161,8 @@ def seg_str(s):
 
 def route_str(r):
     s = "Route[" + seg_str(r[0]) + "]"
+    if r[1] == 3:
+        return s + "{()}"
     if r[1]:
         s += ("vec{" if r[1] == 2 else "{") + "; ".join(route_str(c) for c in r[2]) + "}"
     return s
@@ -128,13 +170,20 @@ def route_str(r):
 
 def describe(item):
     c = item["case"]
+    if c[0] == 5:
+        return "path! literal #%d" % c[1]
+    fl = flags_str(flags_of(c))
+    if c[0] == 3:
+        return "TEST %s%s on %r" % (fl, seg_str(c[1]), txt(c[2]))
     base = ("base=%r " % txt(c[1][0])) if c[1] else ""
+    if c[0] == 4:
+        return "LISTING %s%sroutes=(%s) excluded=%r" % (fl, base, "; ".join(route_str(r) for r in c[2]),
+                                                      [txt(x) for x in c[4]])
     if c[0] == 2:
-        return "BUILD %sroutes=%s(%s) values=%r" % (
-            base, "vec" if len(c) > 4 and c[4] == 1 else "", "; ".join(route_str(r) for r in c[2]),
-            {txt(k): [txt(v) for v in vs] for k, vs in c[3]})
-    return "%sroutes=%s(%s) path=%r" % (base, "vec" if len(c) > 4 and c[4] == 1 else "",
-                                        "; ".join(route_str(r) for r in c[2]), txt(c[3]))
+        return "BUILD %s%sroutes=(%s) values=%r" % (
+            fl, base, "; ".join(route_str(r) for r in c[2]),
+            [(txt(k), [txt(v) for v in vs]) for k, vs in c[3]])
+    return "%s%sroutes=(%s) path=%r" % (fl, base, "; ".join(route_str(r) for r in c[2]), txt(c[3]))
 
 
 # ---------------------------------------------------------------- structure helpers (on the case, not on any model)
@@ -146,7 +195,7 @@ def leaves_preorder(routes):
     def go(r):
         my = counter[0]
         counter[0] += 1
-        if r[1]:
+        if r[1] in (1, 2):
             for c in r[2]:
                 go(c)
         else:
@@ -171,9 +220,11 @@ def leaf_seglists(routes):
     def go(r, prefix):
         acc = list(prefix)
         flat(r[0], acc)
-        if r[1]:
+        if r[1] in (1, 2):
             for c in r[2]:
                 go(c, acc)
+        elif r[1] == 3:
+            out.append(acc + [[4, 1]])   # the unit child generates PathSegment::Unit
         else:
             out.append(acc)
 
@@ -297,6 +348,11 @@ def _judge_match(base, routes, flats, path, m):
         return "path matches flat route #%d but the router does not match it" % want[0]
     if got:
         chain, params = m[1], m[2]
+        if chain and chain[-1][0] == -2:
+            # the `()` child of a .child(()) route: matches everything, consumes nothing
+            if chain[-1][1] != [] or len(chain) < 2:
+                return "the unit child matched some text"
+            chain = chain[:-1]
         leaves = leaves_preorder(routes)
         if len(leaves) != len(flats):
             return "generate_routes() does not list one flat route per leaf definition"
@@ -322,6 +378,26 @@ def _judge_match(base, routes, flats, path, m):
     return None
 
 
+def effective_pmap(case):
+    """the prerendered params the builder sees: none at all (flag 32), the entries as collected
+    (flag 64: duplicates stay, the first one is found), or inserted one by one (a later insert
+    replaces the values of the name, in place)"""
+    f = flags_of(case)
+    if f & 32:
+        return []
+    if f & 64:
+        return case[3]
+    out = []
+    for k, vs in case[3]:
+        for e in out:
+            if e[0] == k:
+                e[1] = vs
+                break
+        else:
+            out.append([k, vs])
+    return out
+
+
 def pm_get(pmap, name):
     for k, vs in pmap:
         if k == name:
@@ -337,7 +413,8 @@ def build_failures(item, impl):
     matches wins; and if that is the route the path was built from, the returned values are
     the given ones.  Every built request path is also judged like any other path."""
     case = item["case"]
-    base, routes, pmap = case[1], case[2], case[3]
+    base, routes = case[1], case[2]
+    pmap = effective_pmap(case)
     g_base, flats, per_route = impl
     if g_base != base:
         yield "generate_routes() reports a different base", None
@@ -390,6 +467,12 @@ def oracle(item, impl):
         for msg, _ in build_failures(item, impl):
             return msg
         return None
+    if case[0] == 3:
+        return test_oracle(case, impl)
+    if case[0] == 4:
+        return listing_oracle(case, impl)
+    if case[0] == 5:
+        return macro_oracle(case, impl)
     base, routes, path = case[1], case[2], case[3]
     g_base, flats, expanded, m, nested = impl
     kind = item.get("kind", "")
@@ -416,6 +499,115 @@ def oracle(item, impl):
             return "match_nested: matched parts + remaining do not partition the path"
     elif nested[1] != path:
         return "match_nested: no match but remaining is not the whole path"
+    return None
+
+
+def test_oracle(case, impl):
+    """PossibleRouteMatch::test on a segment value: the matched prefix and the remainder partition
+    the path; is_complete() says the rest is empty or "/" """
+    path = case[2]
+    if impl == [-1]:
+        return "PossibleRouteMatch::test panicked"
+    if impl == []:
+        return None
+    _, matched, remaining, params, complete = impl
+    if matched + remaining != path:
+        return "test(): matched + remaining do not partition the path"
+    if bool(complete) != (remaining in ([], [47])):
+        return "is_complete() disagrees with 'remaining is empty or /'"
+    return None
+
+
+def render(flat, actix):
+    """a table entry as the integrations write it: the concatenation rule of pattern() with
+    {name} for a param and {*name} (axum) / {name:.*} (actix) for a splat; "" becomes "/" """
+    out = []
+    for tok in pattern(flat):
+        if isinstance(tok, tuple):
+            n = list(tok[1])
+            if tok[0] == PAR:
+                out += [123] + n + [125]
+            elif actix:
+                out += [123] + n + [58, 46, 42, 125]
+            else:
+                out += [123, 42] + n + [125]
+        else:
+            out.append(tok)
+    return out
+
+
+def listing_oracle(case, impl):
+    """the table the server registers for a real app holding these routes is the table the
+    reference assumes: [Static(base or "")] + generate_routes(), optionals expanded, written
+    as path patterns; excluded paths are taken out and listed at the end"""
+    base, routes, flags, excluded = case[1], case[2], case[3], case[4]
+    listing, axum, actix = impl
+    if listing == [-1]:
+        return "RouteList::generate returned nothing"
+    reg = [[0, base[0] if base else []]]
+    want = [reg + f for f in declared_flat_units(routes)]
+    # what RouteList::generate registered, read as patterns (a Static("") more or less is the same entry)
+    def pats(f):
+        return sorted(C.sx(render(e, False)) for e in expand([s for s in f if s[0] != 4]))
+    if len(listing) != len(want) or any(pats(a) != pats(b) for a, b in zip(listing, want)):
+        return "the registered RouteListing paths do not spell Static(base) + the generated routes, in order"
+    for name, got, is_actix in (("leptos_axum", axum, False), ("leptos_actix", actix, True)):
+        paths = [p for p, _ in got]
+        n_ex = len(excluded)
+        if n_ex and paths[len(paths) - n_ex:] != excluded:
+            return "%s: excluded routes are not listed at the end" % name
+        kept = paths[:len(paths) - n_ex] if n_ex else paths
+        i = 0
+        for f in want:
+            group = [render(e, is_actix) for e in expand([s for s in f if s[0] != 4])]
+            group = [p for p in group if p not in excluded]
+            if sorted(map(C.sx, kept[i:i + len(group)])) != sorted(map(C.sx, group)):
+                return ("%s: the route table does not list exactly the expansions of flat route %s"
+                        % (name, "/".join(seg_str(x) for x in f)))
+            i += len(group)
+        if i != len(kept):
+            return "%s: the route table has entries that no route definition generates" % name
+    return None
+
+
+def declared_flat_units(routes):
+    """like declared_flat, with the Unit segments kept (what RouteListing::path() shows)"""
+    return [[[4] if s[0] == 4 else [s[0], s[1]] for s in segs if s != [4]] for segs in leaf_seglists(routes)]
+
+
+def parse_path_literal(lit):
+    """independent reading of a path! literal: '/'-separated pieces, ':x' param, ':x?' optional
+    param, '*x' splat, anything else static; a trailing '/' (on anything but the root) is a
+    StaticSegment("/"); "" / "/" / "*" / "/*" have no segments"""
+    text = bytes(lit).decode()
+    core = text.strip("/")
+    segs = []
+    if core not in ("", "*"):
+        for piece in core.split("/"):
+            if piece.startswith(":") and piece.endswith("?"):
+                segs.append([2, list(piece[1:-1].encode())])
+            elif piece.startswith(":"):
+                segs.append([1, list(piece[1:].encode())])
+            elif piece.startswith("*"):
+                segs.append([3, list(piece[1:].encode())])
+            else:
+                segs.append([0, list(piece.encode())])
+    if text.endswith("/") and text != "/":
+        segs.append([0, [47]])
+    return segs
+
+
+N_PATH_LITERALS = 40
+
+
+def macro_oracle(case, impl):
+    if case[1] >= N_PATH_LITERALS:
+        return None if impl == [] else "more path! literals than expected"
+    if impl == []:
+        return "path! literal #%d missing from the harness" % case[1]
+    lit, segs = impl
+    if segs != parse_path_literal(lit):
+        return "path!(%r) does not expand to the segments its text spells" % txt(lit)
     return None
 
 
@@ -472,9 +664,9 @@ def k_slash_static(base, routes):
                 return True
             if t == [47] and any(not (x[0] == 4 or (x[0] == 0 and x[1] == [])) for x in segs[i + 1:]):
                 return True
-    if base:
+    if base and base[0]:     # the empty base (what <Routes> passes without <Router base>) is tame
         b = base[0]
-        if not b or b[0] != 47 or b[-1] == 47 or any(b[i] == 47 and b[i + 1] == 47 for i in range(len(b) - 1)):
+        if b[0] != 47 or b[-1] == 47 or any(b[i] == 47 and b[i + 1] == 47 for i in range(len(b) - 1)):
             return True
     return False
 
@@ -499,7 +691,7 @@ def opt_tail_seg(s):
 
 
 def opt_ok_route(r):
-    if r[1] == 0:
+    if r[1] in (0, 3):
         return opt_tail_seg(r[0])
     return (not seg_optional(r[0])) and all(opt_ok_route(c) for c in r[2])
 
@@ -541,6 +733,12 @@ def classify(item, impl, model):
                 return "F-C14-e" if "todo!" in msg else None
             return known_class_of([0, case[1], case[2], path])
         return None
+    if case[0] == 3:
+        # the same syntactic classes, read off the segment value as a one-route table (what can
+        # fail here is the mid-component panic of F-C14-a / F-C14-b)
+        return known_class_of([0, [], [[case[1], 0]], case[2]])
+    if case[0] != 0:
+        return None
     return known_class_of(case)
 
 
@@ -552,48 +750,66 @@ def _utf8(v):
         return False
 
 
+def _seg_valid(s):
+    k = s[0]
+    if k == 4:
+        return len(s) == 1
+    if k == 0:
+        return len(s) == 2 and _utf8(s[1])
+    if k in (1, 2, 3):
+        return len(s) == 2 and _utf8(s[1]) and len(s[1]) > 0 and s[1][0] != 47
+    if k == 5:
+        return len(s) == 2 and 1 <= len(s[1]) <= 12 and all(_seg_valid(x) for x in s[1])
+    return False
+
+
+def _flat_segs(s):
+    if s[0] == 5:
+        out = []
+        for x in s[1]:
+            out += _flat_segs(x)
+        return out
+    return [s] if s[0] != 4 else []
+
+
 def valid_case(item):
     """generator preconditions (kept by the shrinker): shape of the case, arities 1..12, valid
     UTF-8 everywhere, names non-empty and not starting with '/', a wildcard only as the very
     last segment of a leaf route"""
     try:
         c = item["case"]
-        if len(c) not in (4, 5) or c[0] not in (0, 1, 2) or (len(c) == 5 and c[4] != 1):
+        if c[0] == 5:
+            return len(c) == 2 and 0 <= c[1] <= N_PATH_LITERALS
+        if c[0] == 3:
+            return (len(c) == 4 and 0 <= c[3] < 16 and _utf8(c[2]) and _seg_valid(c[1])
+                    and not any(x[0] == 3 for x in _flat_segs(c[1])[:-1]))
+        if c[0] == 4:
+            c = [4, c[1], c[2], [], c[3], c[4]]     # same layout as the others from here on
+            if not (0 <= c[4] < 512 and c[4] & 0xF0 in (0, 256) and all(_utf8(x) for x in c[5])):
+                return False
+        elif len(c) not in (4, 5) or c[0] not in (0, 1, 2) or (len(c) == 5 and not (
+                0 <= c[4] < (256 if c[0] == 2 else 32))):
             return False
         base, routes, path = c[1], c[2], c[3]
         if not (base == [] or (len(base) == 1 and _utf8(base[0]))):
             return False
         if c[0] == 2:
-            names = []
             for kv in path:
                 if not (len(kv) == 2 and _utf8(kv[0]) and kv[0] and all(_utf8(v) for v in kv[1])):
                     return False
-                names.append(C.sx(kv[0]))
-            if len(set(names)) != len(names):
-                return False
         elif not _utf8(path):
             return False
 
-        def seg_ok(s):
-            k = s[0]
-            if k == 4:
-                return len(s) == 1
-            if k == 0:
-                return len(s) == 2 and _utf8(s[1])
-            if k in (1, 2, 3):
-                return len(s) == 2 and _utf8(s[1]) and len(s[1]) > 0 and s[1][0] != 47
-            if k == 5:
-                return len(s) == 2 and 1 <= len(s[1]) <= 12 and all(seg_ok(x) for x in s[1])
-            return False
+        seg_ok = _seg_valid
 
         def route_ok(r):
             if not seg_ok(r[0]):
                 return False
-            if r[1] == 0:
+            if r[1] in (0, 3):
                 return len(r) == 2
-            return r[1] in (1, 2) and len(r) == 3 and 1 <= len(r[2]) <= 12 and all(route_ok(x) for x in r[2])
+            return r[1] in (1, 2) and len(r) == 3 and 1 <= len(r[2]) <= 16 and all(route_ok(x) for x in r[2])
 
-        if not (1 <= len(routes) <= 12 and all(route_ok(r) for r in routes)):
+        if not (1 <= len(routes) <= 16 and all(route_ok(r) for r in routes)):
             return False
         for segs in leaf_seglists(routes):
             real = [x for x in segs if x[0] != 4]
@@ -603,7 +819,7 @@ def valid_case(item):
         # a known-finding case, and a new failure inside a known class (implementation and
         # model differ there) is reported as generated: shrinking by the oracle alone would
         # drift to the recorded behaviour of that class
-        if "known" in item and c[0] != 2:
+        if "known" in item and c[0] == 0:
             if item["known"] is None:
                 return known_class_of(c) is None
             return C.case_hash(c) == item.get("orig")
@@ -615,6 +831,10 @@ def valid_case(item):
 def nontrivial(item, model):
     # a case is non-trivial when something matched (either matcher entry point)
     if item.get("kind") == "ref-xcheck":
+        return False
+    if item["case"][0] == 3:
+        return model not in ([], [-1])
+    if item["case"][0] in (4, 5):
         return False
     if item["case"][0] == 2:
         try:
@@ -632,8 +852,10 @@ ALPHA = ["/", "a", "b", "\u00e9"]
 STATICS = ["a", "b", "ab", "a", "b", "", "/", "/a", "/b", "\u00e9", "a\u00e9"]
 EXOTIC_STATICS = ["a/b", "/a/b", "a/", "//"]
 NAMES = ["x", "y", "z", "w"]
-VALUES = ["a", "b", "ab", "\u00e9", "ba", "a\u00e9b", "x"]
-BASES = [None, None, None, None, None, None, "/b", "/\u00e9", "/a/b", "/"]
+VALUES = ["a", "b", "ab", "\u00e9", "ba", "a\u00e9b", "x", "\u20ac", "\U0001F600", "a\u20acb"]
+# "" is what <Routes>/<FlatRoutes> pass to new_with_base when <Router> has no base; "b" takes the
+# other arm of the base strip (a base without leading '/')
+BASES = [None, None, None, None, None, "", "", "/b", "/\u00e9", "/a/b", "/", "b"]
 
 
 def all_paths(maxlen, alpha=ALPHA):
@@ -714,6 +936,9 @@ def gen_route(rng, depth, budget):
         if rng.random() < 0.04:
             n = rng.randint(7, 10)
             budget[0] += n
+        elif rng.random() < 0.012:
+            n = rng.randint(13, 16)      # EitherOf13..EitherOf16
+            budget[0] += n
         kids = []
         for _ in range(n):
             if budget[0] <= 0 and kids:
@@ -721,8 +946,12 @@ def gen_route(rng, depth, budget):
             kids.append(gen_route(rng, depth - 1, budget))
         return R(seg, kids, vec=rng.random() < 0.2)
     if rng.random() < 0.3:
-        return R(gen_opt_tail(rng))
-    return R(gen_seg(rng, 2, True))
+        r = R(gen_opt_tail(rng))
+    else:
+        r = R(gen_seg(rng, 2, True))
+    if rng.random() < 0.02:
+        r = [r[0], 3]                    # .child(())
+    return r
 
 
 def gen_routes(rng):
@@ -730,6 +959,9 @@ def gen_routes(rng):
     n = rng.choice([1, 1, 2, 2, 3, 4])
     if rng.random() < 0.04:
         n = rng.randint(7, 12)
+        budget[0] = n + 2
+    elif rng.random() < 0.012:
+        n = rng.randint(13, 16)
         budget[0] = n + 2
     out = []
     for _ in range(n):
@@ -740,15 +972,26 @@ def gen_routes(rng):
 
 
 def gen_pmap(rng, odd):
-    """prerendered values for the parameter names; odd: also empty / slash-carrying values"""
+    """prerendered values for the parameter names; odd: also empty / slash-carrying values; a
+    name may be listed twice (insert: the later entry replaces; FromIterator: the first is found)"""
     out = []
-    for n in NAMES:
+    for n in NAMES + ([rng.choice(NAMES)] if rng.random() < 0.25 else []):
         if rng.random() < 0.08:
             continue              # no values for this name: routes using it build nothing
         pool = VALUES + (["", "/a", "a/b", "a/", "/"] if odd else [])
         vs = [rng.choice(pool) for _ in range(rng.choice([1, 1, 2]))]
         out.append([n, vs])
     return C.norm(out)
+
+
+def rep_flags(rng):
+    """representation flags of a case (bits 1..16); bit 1 (StaticVec at the top) is drawn separately"""
+    f = rng.choice([0, 0, 0, 2, 4])
+    if rng.random() < 0.25:
+        f |= 8
+    if rng.random() < 0.3:
+        f |= 16
+    return f
 
 
 def axum_join(flat, values):
@@ -775,6 +1018,14 @@ def declared_flat(routes):
     """flat segment lists as PathSegment-like [kind, text] read off the case itself"""
     return [[[{0: 0, 1: 1, 2: 2, 3: 3}[s[0]], s[1]] for s in segs if s[0] != 4]
             for segs in leaf_seglists(routes)]
+
+
+def has_unit_child(routes):
+    return any(r[1] == 3 or (r[1] in (1, 2) and has_unit_child(r[2])) for r in routes)
+
+
+def strip_unit_child(routes):
+    return [[r[0], 0] if r[1] == 3 else ([r[0], r[1], strip_unit_child(r[2])] if r[1] else r) for r in routes]
 
 
 def mutate(rng, p):
@@ -814,7 +1065,7 @@ def targeted(rng, base, routes, n):
             if seg[0] == 1:
                 vals.append(list(rng.choice(VALUES).encode()))
             elif seg[0] == 3:
-                vals.append(list(rng.choice(["", "a", "a/b", "a//b", "\u00e9/", "/"]).encode()))
+                vals.append(list(rng.choice(["", "a", "a/b", "a//b", "\u00e9/", "/", "\u20ac/\U0001F600"]).encode()))
         p = list(((base or "").encode() + bytes(axum_join(e, vals))).decode())
         built = True
         while rng.random() < 0.5:
@@ -882,17 +1133,66 @@ def generate(rng, tier):
     # reference and class predicates (two independent formulations of the reference).
     extra = []
     for it in items[::25]:
-        if it["kind"] != "raw-path" and it["case"][0] == 0:
+        if it["kind"] != "raw-path" and it["case"][0] == 0 and not has_unit_child(it["case"][2]):
             extra.append(dict(case=[1] + it["case"][1:], kind="ref-xcheck", compare=False))
     items += extra
     for it in items:
-        if it["case"][0] == 2:
+        c = it["case"]
+        if c[0] == 2 and has_unit_child(c[2]):
+            c[2] = strip_unit_child(c[2])
+        if c[0] not in (0, 1):
             continue
-        it["known"] = known_class_of(it["case"])
+        it["known"] = known_class_of(c)
+        if has_unit_child(c[2]):
+            # .child(()) is not modelled: judged by the oracle alone, and only outside the
+            # known classes (classify() recognises a known finding by impl == model)
+            if it["known"] is not None or it["kind"] == "raw-path":
+                c[2] = strip_unit_child(c[2])
+            else:
+                it["compare"] = False
         if it["known"] is not None:
-            it["orig"] = C.case_hash(it["case"])
+            it["orig"] = C.case_hash(c)
     items.sort(key=lambda it: it.get("known") is not None)
     return items
+
+
+def with_flags(rng, case, op2=False):
+    """append the flags element: representation bits, StaticVec bit, (op 2) params / entry bits"""
+    f = rep_flags(rng)
+    if rng.random() < 0.15:
+        f |= 1
+    if op2:
+        r = rng.random()
+        if r < 0.08:
+            f |= 32
+        elif r < 0.35:
+            f |= 64
+        if rng.random() < 0.3:
+            f |= 128
+    return case + ([f] if f else [])
+
+
+def gen_excluded(rng, base, routes):
+    """paths to exclude from the listing: some of the expected entries (without a splat, whose
+    spelling differs between axum and actix), sometimes a path the app does not have"""
+    reg = [[0, base[0] if base else []]]
+    cands = []
+    for f in declared_flat(routes):
+        for e in expand(reg + f):
+            if not any(sg[0] == 3 for sg in e):
+                cands.append(render(e, False))
+    out = []
+    if cands and rng.random() < 0.5:
+        out.append(rng.choice(cands))
+        if rng.random() < 0.3:
+            out.append(rng.choice(cands))
+    if rng.random() < 0.15:
+        out.append(C.norm("/nope"))
+    uniq = []
+    for p in out:
+        if p not in uniq:
+            uniq.append(p)
+    return uniq
 
 
 def _generate(rng, tier):
@@ -900,15 +1200,17 @@ def _generate(rng, tier):
     plen = 6 if quick else 7
     paths = [C.norm(p) for p in all_paths(plen)]
     fixed = [C.norm(t) for t in FIXED]
-    # 1. fixed tables x every path up to the bound
+    # 1. fixed tables x every path up to the bound (each table under one drawn representation)
     longer = paths if quick else [C.norm(p) for p in all_paths(plen + 1)]
     for ti, routes in enumerate(fixed):
+        fl = rep_flags(rng) & ~16
+        tail = [fl] if fl else []
         for p in (longer if ti < 8 else paths):
-            yield dict(case=[0, [], routes, p], kind="exhaustive")
+            yield dict(case=[0, [], routes, p] + tail, kind="exhaustive")
     for routes in fixed[:6]:
-        b = C.norm("/b")
-        for p in paths[: len(paths) // 4]:
-            yield dict(case=[0, [b], routes, b + p], kind="exhaustive-base")
+        for b in (C.norm("/b"), C.norm("")):
+            for p in paths[: len(paths) // 4]:
+                yield dict(case=with_flags(rng, [0, [b], routes, b + p]), kind="exhaustive-base")
     # 2. random tables x (targeted paths + random paths)
     n_tables = 2500 if quick else 12000
     short = [C.norm(p) for p in all_paths(4)]
@@ -916,36 +1218,60 @@ def _generate(rng, tier):
         routes = gen_routes(rng)
         base = rng.choice(BASES)
         nb = [C.norm(base)] if base is not None else []
-        tail = [1] if rng.random() < 0.15 else []
+        proto = with_flags(rng, [0, nb, routes, None])
         for p, built in targeted(rng, base, routes, 14):
-            yield dict(case=[0, nb, routes, p] + tail, kind="built" if built else "targeted")
+            yield dict(case=[0, nb, routes, p] + proto[4:], kind="built" if built else "targeted")
         for _ in range(6):
             p = rng.choice(short)
             if base and rng.random() < 0.8:
                 p = C.norm(base) + p
-            yield dict(case=[0, nb, routes, p] + tail, kind="random")
+            yield dict(case=[0, nb, routes, p] + proto[4:], kind="random")
     # 3. the real path builder: StaticPath::into_paths on every flat route (and each of its
     #    expansions) with generated parameter values, every built path fed back to match_route
     for ti, routes in enumerate(fixed):
-        for b in ([], [C.norm("/b")]):
-            yield dict(case=[2, b, routes, gen_pmap(rng, False)], kind="build")
+        for b in ([], [C.norm("/b")], [C.norm("")]):
+            yield dict(case=with_flags(rng, [2, b, routes, gen_pmap(rng, False)], op2=True), kind="build")
     for _ in range(1500 if quick else 12000):
         routes = gen_routes(rng)
         base = rng.choice(BASES)
         nb = [C.norm(base)] if base is not None else []
         odd = rng.random() < 0.15
-        tail = [1] if rng.random() < 0.15 else []
-        yield dict(case=[2, nb, routes, gen_pmap(rng, odd)] + tail, kind="build-odd-values" if odd else "build")
+        yield dict(case=with_flags(rng, [2, nb, routes, gen_pmap(rng, odd)], op2=True),
+                   kind="build-odd-values" if odd else "build")
     # 4. arbitrary strings as paths (no leading '/'): correspondence only
     for _ in range(2000 if quick else 20000):
         routes = gen_routes(rng)
         p = C.norm("".join(rng.choice(ALPHA + ["a", "b"]) for _ in range(rng.randint(0, 6))))
         yield dict(case=[0, [], routes, p], kind="raw-path")
+    # 5. PossibleRouteMatch::test called directly on segment values (tuples of any nesting)
+    for _ in range(1500 if quick else 15000):
+        seg = C.norm(gen_seg(rng, 2, True) if rng.random() < 0.7 else gen_opt_tail(rng))
+        flat = [[x[0], x[1]] for x in _flat_segs(seg)]
+        for _ in range(3):
+            if flat and rng.random() < 0.8:
+                p = targeted(rng, None, [[seg, 0]], 1)[0][0]
+            else:
+                p = rng.choice(short)
+            yield dict(case=[3, seg, p, rep_flags(rng) & 15], kind="segment-test")
+    # 6. the route table the server integrations register for a real app with these routes
+    for ti, routes in enumerate(fixed):
+        yield dict(case=[4, [], routes, 0, []], kind="listing", compare=False)
+    for _ in range(400 if quick else 4000):
+        routes = gen_routes(rng)
+        base = rng.choice(BASES)
+        nb = [C.norm(base)] if base is not None else []
+        fl = (rep_flags(rng) & 15) | (1 if rng.random() < 0.15 else 0) | (256 if rng.random() < 0.4 else 0)
+        yield dict(case=[4, nb, routes, fl, gen_excluded(rng, nb, routes)], kind="listing", compare=False)
+    # 7. literals compiled through the path! macro
+    for i in range(N_PATH_LITERALS + 1):
+        yield dict(case=[5, i], kind="path-macro", compare=False)
 
 
 def _shape_stats(case):
     big = vec = False
-    if len(case) > 4 and case[4] == 1:
+    if case[0] in (3, 5):
+        return False, False
+    if flags_of(case) & 1:
         vec = True
     if len(case[2]) > 6:
         big = True
@@ -961,7 +1287,7 @@ def _shape_stats(case):
     def route(r):
         nonlocal big, vec
         seg(r[0])
-        if r[1]:
+        if r[1] in (1, 2):
             if r[1] == 2:
                 vec = True
             if len(r[2]) > 6:
@@ -974,12 +1300,26 @@ def _shape_stats(case):
     return big, vec
 
 
+def max_siblings(routes):
+    return max([len(routes)] + [max_siblings(r[2]) for r in routes if r[1] in (1, 2)])
+
+
 def coverage_extra(results):
     n = bad = inst = inst_bad = 0
     n_big = n_vec = n_opt_inside = n_built = n_built_matched = 0
+    n_13 = n_unit = n_dyn = n_aspath = n_empty_base = n_listed = 0
     examples = []
     for r in results:
         it = r["item"]
+        c = it["case"]
+        if c[0] in (0, 2, 4) and it.get("kind") != "raw-path":
+            n_13 += max_siblings(c[2]) > 12
+            n_unit += has_unit_child(c[2])
+            n_dyn += bool(flags_of(c) & 6)
+            n_aspath += bool(flags_of(c) & 8)
+            n_empty_base += c[1] == [[]]
+            if c[0] == 4 and not isinstance(r["impl"], str):
+                n_listed += len(r["impl"][1]) + len(r["impl"][2])
         if it.get("kind") not in ("ref-xcheck", "raw-path"):
             big, vec = _shape_stats(it["case"])
             n_big += big
@@ -1009,7 +1349,10 @@ def coverage_extra(results):
             inst += 1
             if m[0] != m[1] or impl[3] == [-1]:
                 inst_bad += 1
-    return dict(cases_with_arity_above_6=n_big, cases_with_static_vec_children=n_vec,
+    return dict(cases_with_13_to_16_siblings=n_13, cases_with_unit_child=n_unit,
+                cases_with_dyn_segments=n_dyn, cases_with_user_aspath_type=n_aspath,
+                cases_with_empty_base=n_empty_base, route_table_entries_of_real_integrations_checked=n_listed,
+                cases_with_arity_above_6=n_big, cases_with_static_vec_children=n_vec,
                 cases_with_optionals_outside_known_classes=n_opt_inside,
                 paths_built_by_the_real_builder=n_built, built_paths_matched=n_built_matched,
                 reference_crosscheck_cases=n, reference_python_vs_coq_disagreements=bad,
